@@ -828,3 +828,315 @@ Section WithHash.
   Qed.
 
 End WithHash.
+
+(* ------------------------------------------------------------------ export profiles (record level) *)
+Lemma key_order : OrderLaws key_cmp.
+Proof. apply pair_order; apply N_order. Qed.
+Lemma cref_order : OrderLaws cref_cmp.
+Proof. apply pair_order; [apply key_order|apply pair_order; apply N_order]. Qed.
+Lemma mat_order : OrderLaws mat_cmp.
+Proof. repeat (apply pair_order; [apply N_order|]); apply N_order. Qed.
+Lemma payload_order : OrderLaws payload_cmp.
+Proof. apply pair_order; [apply mat_order|apply bytes_order]. Qed.
+Lemma triple_order : OrderLaws triple_cmp.
+Proof. repeat (apply pair_order; [apply N_order|]); apply N_order. Qed.
+
+Section CanonFacts.
+  Context {K V : Type} (kcmp : K -> K -> comparison) (vcmp : V -> V -> comparison) (key : V -> K).
+  Hypothesis KO : OrderLaws kcmp.
+  Hypothesis VO : OrderLaws vcmp.
+
+  Let k_eq := ol_eq _ KO.
+
+  Lemma canon_step_none vs : fold_left (canon_step kcmp vcmp key) vs None = None.
+  Proof. induction vs; cbn; auto. Qed.
+
+  (* entries survive, and every processed value sits under its key *)
+  Lemma canon_fold vs : forall m m',
+    fold_left (canon_step kcmp vcmp key) vs (Some m) = Some m' ->
+    (forall k v, find kcmp k m = Some v -> find kcmp k m' = Some v) /\
+    (forall v, In v vs -> find kcmp (key v) m' = Some v) /\
+    (forall k v, find kcmp k m' = Some v -> find kcmp k m = Some v \/ In v vs).
+  Proof.
+    induction vs as [|x vs IH]; intros m m' Hf.
+    - cbn in Hf. inversion Hf; subst. repeat split; auto. intros v [].
+    - cbn [fold_left] in Hf. unfold canon_step at 2 in Hf.
+      destruct (find kcmp (key x) m) as [e|] eqn:F.
+      + destruct (vcmp e x) eqn:E; try (rewrite canon_step_none in Hf; discriminate).
+        apply (ol_eq _ VO) in E. subst e.
+        destruct (IH _ _ Hf) as (P1 & P2 & P3). repeat split.
+        * intros k v Hk. apply P1.
+          destruct (kcmp k (key x)) eqn:Ek.
+          -- apply k_eq in Ek. subst k. rewrite (find_set_same kcmp k_eq). congruence.
+          -- rewrite (find_set_other kcmp k_eq); auto. intro; subst. rewrite (proj2 (k_eq _ _) eq_refl) in Ek. discriminate.
+          -- rewrite (find_set_other kcmp k_eq); auto. intro; subst. rewrite (proj2 (k_eq _ _) eq_refl) in Ek. discriminate.
+        * intros v [->|Hin]; [|auto]. apply P1. apply (find_set_same kcmp k_eq).
+        * intros k v Hk. destruct (P3 k v Hk) as [Hm|Hin]; [|right; right; exact Hin].
+          destruct (kcmp k (key x)) eqn:Ek.
+          -- apply k_eq in Ek. subst k. rewrite (find_set_same kcmp k_eq) in Hm. inversion Hm; subst. right; left; reflexivity.
+          -- rewrite (find_set_other kcmp k_eq) in Hm; auto. intro; subst. rewrite (proj2 (k_eq _ _) eq_refl) in Ek. discriminate.
+          -- rewrite (find_set_other kcmp k_eq) in Hm; auto. intro; subst. rewrite (proj2 (k_eq _ _) eq_refl) in Ek. discriminate.
+      + destruct (IH _ _ Hf) as (P1 & P2 & P3). repeat split.
+        * intros k v Hk. apply P1.
+          destruct (kcmp k (key x)) eqn:Ek.
+          -- apply k_eq in Ek. subst k. congruence.
+          -- rewrite (find_set_other kcmp k_eq); auto. intro; subst. rewrite (proj2 (k_eq _ _) eq_refl) in Ek. discriminate.
+          -- rewrite (find_set_other kcmp k_eq); auto. intro; subst. rewrite (proj2 (k_eq _ _) eq_refl) in Ek. discriminate.
+        * intros v [->|Hin]; [|auto]. apply P1. apply (find_set_same kcmp k_eq).
+        * intros k v Hk. destruct (P3 k v Hk) as [Hm|Hin]; [|right; right; exact Hin].
+          destruct (kcmp k (key x)) eqn:Ek.
+          -- apply k_eq in Ek. subst k. rewrite (find_set_same kcmp k_eq) in Hm. inversion Hm; subst. right; left; reflexivity.
+          -- rewrite (find_set_other kcmp k_eq) in Hm; auto. intro; subst. rewrite (proj2 (k_eq _ _) eq_refl) in Ek. discriminate.
+          -- rewrite (find_set_other kcmp k_eq) in Hm; auto. intro; subst. rewrite (proj2 (k_eq _ _) eq_refl) in Ek. discriminate.
+  Qed.
+
+  Lemma canon_keyed vs : forall m m',
+    fold_left (canon_step kcmp vcmp key) vs (Some m) = Some m' ->
+    (forall k v, find kcmp k m = Some v -> k = key v) ->
+    forall k v, find kcmp k m' = Some v -> k = key v.
+  Proof.
+    induction vs as [|x vs IH]; intros m m' Hf Hk; [inversion Hf; subst; exact Hk|].
+    cbn [fold_left] in Hf. unfold canon_step at 2 in Hf.
+    assert (Hset : forall k v, find kcmp k (set kcmp (key x) x m) = Some v -> k = key v).
+    { intros k v Hv. destruct (kcmp k (key x)) eqn:Ek.
+      - apply k_eq in Ek. subst k. rewrite (find_set_same kcmp k_eq) in Hv. inversion Hv; subst; reflexivity.
+      - rewrite (find_set_other kcmp k_eq) in Hv; auto. intro; subst. rewrite (proj2 (k_eq _ _) eq_refl) in Ek. discriminate.
+      - rewrite (find_set_other kcmp k_eq) in Hv; auto. intro; subst. rewrite (proj2 (k_eq _ _) eq_refl) in Ek. discriminate. }
+    destruct (find kcmp (key x) m) as [e|].
+    - destruct (vcmp e x); try (rewrite canon_step_none in Hf; discriminate). eapply IH; eauto.
+    - eapply IH; eauto.
+  Qed.
+
+  Lemma canon_contains vs m v : canon kcmp vcmp key vs = Some m -> In v vs -> In (key v, v) m.
+  Proof.
+    intros Hc Hin. destruct (canon_fold vs [] m Hc) as (_ & P2 & _).
+    apply (find_in kcmp k_eq). apply P2, Hin.
+  Qed.
+
+  Lemma canon_sorted_gen vs : forall m m', sorted kcmp m ->
+    fold_left (canon_step kcmp vcmp key) vs (Some m) = Some m' -> sorted kcmp m'.
+  Proof.
+    induction vs as [|x vs IH]; intros m m' Hs Hf; [inversion Hf; subst; exact Hs|].
+    cbn [fold_left] in Hf. unfold canon_step at 2 in Hf.
+    destruct (find kcmp (key x) m) as [e|].
+    - destruct (vcmp e x); try (rewrite canon_step_none in Hf; discriminate).
+      eapply IH; [|exact Hf]. apply set_sorted; try exact k_eq; try exact (ol_antisym _ KO); try exact (ol_trans _ KO); auto.
+    - eapply IH; [|exact Hf]. apply set_sorted; try exact k_eq; try exact (ol_antisym _ KO); try exact (ol_trans _ KO); auto.
+  Qed.
+
+  Lemma canon_from vs m k v : canon kcmp vcmp key vs = Some m -> In (k, v) m -> sorted kcmp m -> In v vs.
+  Proof.
+    intros Hc Hin Hs. destruct (canon_fold vs [] m Hc) as (_ & _ & P3).
+    assert (Hf : find kcmp k m = Some v).
+    { apply (in_find kcmp k_eq (ol_antisym _ KO) (ol_trans _ KO)); auto. }
+    destruct (P3 k v Hf) as [Hm|Hv]; [discriminate|exact Hv].
+  Qed.
+End CanonFacts.
+
+Section ExportProofs.
+  Variable H : bytes -> N.
+  Notation Collision := (Collision H).
+
+  (* ---- CAS-addressed ---- *)
+  Lemma cas_blob_ok cas r : cas_blob H cas r = CASOk ->
+    exists b, find N.compare (cref_hash r) cas = Some b /\ H b = cref_hash r /\ lenN b = cref_len r.
+  Proof.
+    unfold cas_blob. destruct (find N.compare (cref_hash r) cas) as [b|]; [|discriminate].
+    destruct (N.eqb_spec (H b) (cref_hash r)); cbn; [|discriminate].
+    destruct (N.eqb_spec (lenN b) (cref_len r)); cbn; [|discriminate].
+    intros _. exists b. auto.
+  Qed.
+
+  Lemma cas_blobs_ok cas rs : cas_blobs H cas rs = CASOk -> forall r, In r rs -> cas_blob H cas r = CASOk.
+  Proof.
+    induction rs as [|x rs IH]; intros Hk r [].
+    - subst. cbn in Hk. destruct (cas_blob H cas r); try discriminate. reflexivity.
+    - cbn in Hk. destruct (cas_blob H cas x); try discriminate. auto.
+  Qed.
+
+  Lemma cas_blobs_all_ok cas rs : (forall r, In r rs -> cas_blob H cas r = CASOk) -> cas_blobs H cas rs = CASOk.
+  Proof.
+    induction rs as [|x rs IH]; intros Ha; [reflexivity|].
+    cbn. rewrite (Ha x (or_introl eq_refl)). apply IH. intros r Hr. apply Ha. right; exact Hr.
+  Qed.
+
+  (* Ok means: every referenced blob is present, hashes to its reference and has the referenced length *)
+  Lemma cas_ok_intact mats segrefs retrefs cas : cas_check H mats segrefs retrefs cas = CASOk ->
+    forall r, In r (segrefs ++ retrefs) ->
+      exists b, find N.compare (cref_hash r) cas = Some b /\ H b = cref_hash r /\ lenN b = cref_len r.
+  Proof.
+    unfold cas_check. destruct (canon key_cmp cref_cmp cref_key retrefs) as [rs|] eqn:Hc; [|discriminate].
+    destruct (orb _ _); [discriminate|].
+    destruct (cas_blobs H cas segrefs) eqn:Hs; try discriminate.
+    intros Hr r Hin. apply cas_blob_ok. apply in_app_or in Hin as [Hin|Hin].
+    - exact (cas_blobs_ok _ _ Hs r Hin).
+    - eapply cas_blobs_ok; [exact Hr|]. apply in_map_iff. exists (cref_key r, r). split; [reflexivity|].
+      eapply canon_contains; eauto using key_order, cref_order.
+  Qed.
+
+  Lemma cas_withheld_is_obstruction mats segrefs retrefs cas r :
+    In r (segrefs ++ retrefs) -> find N.compare (cref_hash r) cas = None ->
+    cas_check H mats segrefs retrefs cas <> CASOk.
+  Proof.
+    intros Hin Hf Hok. destruct (cas_ok_intact _ _ _ _ Hok r Hin) as (b & Hb & _). congruence.
+  Qed.
+
+  Lemma cas_corrupt_is_obstruction mats segrefs retrefs cas r orig c :
+    In r (segrefs ++ retrefs) -> H orig = cref_hash r -> find N.compare (cref_hash r) cas = Some c -> c <> orig ->
+    cas_check H mats segrefs retrefs cas <> CASOk \/ Collision.
+  Proof.
+    intros Hin Ho Hf Hne.
+    destruct (cas_check H mats segrefs retrefs cas) eqn:Hk; try (left; discriminate).
+    right. destruct (cas_ok_intact _ _ _ _ Hk r Hin) as (b & Hb & Hh & _).
+    rewrite Hf in Hb. inversion Hb; subst b. exists c, orig. split; auto. congruence.
+  Qed.
+
+  (* ---- self-contained ---- *)
+  Lemma sc_hashes_none ps : sc_hashes H ps = None ->
+    forall d m b, In (d, (m, b)) ps -> H b = mat_digest m.
+  Proof.
+    induction ps as [|[d0 [m0 b0]] ps IH]; intros Hn d m b []; cbn in Hn.
+    - inversion H0; subst. destruct (N.eqb_spec (H b) (mat_digest m)); [auto|discriminate].
+    - destruct (N.eqb (H b0) (mat_digest m0)); [eauto|discriminate].
+  Qed.
+
+  Lemma sc_missing_none mats ps : sc_missing mats ps = None ->
+    forall m, In m mats -> mat_present m = true -> mem N.compare (mat_digest m) ps = true.
+  Proof.
+    induction mats as [|x mats IH]; intros Hn m [] Hp; cbn in Hn.
+    - subst. rewrite Hp in Hn. cbn in Hn. destruct (mem N.compare (mat_digest m) ps); [reflexivity|discriminate].
+    - destruct (mat_present x && negb (mem N.compare (mat_digest x) ps)); [discriminate|eauto].
+  Qed.
+
+  Lemma sc_extra_none mats ps : sc_extra mats ps = None ->
+    forall d p, In (d, p) ps -> exists m, In m mats /\ mat_digest m = d.
+  Proof.
+    induction ps as [|[d0 p0] ps IH]; intros Hn d p []; cbn in Hn.
+    - inversion H0; subst. destruct (existsb (fun m => N.eqb (mat_digest m) d) mats) eqn:E; [|discriminate].
+      apply existsb_exists in E as (m & Hm & Heq). exists m. split; auto. apply N.eqb_eq; exact Heq.
+    - destruct (existsb (fun m => N.eqb (mat_digest m) d0) mats); [eauto|discriminate].
+  Qed.
+
+  (* Ok means: every embedded payload hashes to the digest of its record, every present record has
+     such a payload, and no payload is for a digest outside the record set *)
+  Lemma sc_ok_intact mats pays : sc_check H mats pays = SCOk ->
+    (forall m b, In (m, b) pays -> H b = mat_digest m /\ exists m', In m' mats /\ mat_digest m' = mat_digest m) /\
+    (forall m, In m mats -> mat_present m = true ->
+       exists m' b, In (m', b) pays /\ mat_digest m' = mat_digest m /\ H b = mat_digest m).
+  Proof.
+    unfold sc_check.
+    destruct (canon N.compare payload_cmp (fun p => mat_digest (fst p)) pays) as [ps|] eqn:Hc; [|discriminate].
+    destruct (sc_hashes H ps) as [[e a]|] eqn:Hh; [discriminate|].
+    destruct (sc_missing mats ps) eqn:Hm; [discriminate|].
+    destruct (sc_extra mats ps) eqn:He; [discriminate|]. intros _.
+    assert (Hs : sorted N.compare ps).
+    { eapply canon_sorted_gen; try exact N_order; try exact Hc; exact I. }
+    split.
+    - intros m b Hin.
+      pose proof (canon_contains N.compare payload_cmp _ N_order payload_order pays ps (m, b) Hc Hin) as Hi. cbn in Hi.
+      split; [eapply sc_hashes_none; eauto|]. eapply sc_extra_none; eauto.
+    - intros m Hin Hp. pose proof (sc_missing_none _ _ Hm m Hin Hp) as Hmem.
+      unfold mem in Hmem. destruct (find N.compare (mat_digest m) ps) as [[m' b]|] eqn:F; [|discriminate].
+      apply (find_in N.compare (ol_eq _ N_order)) in F.
+      pose proof (canon_from N.compare payload_cmp _ N_order payload_order pays ps _ _ Hc F Hs) as Hv.
+      pose proof (canon_contains N.compare payload_cmp _ N_order payload_order pays ps (m', b) Hc Hv) as Hi. cbn in Hi.
+      assert (Hd : mat_digest m' = mat_digest m).
+      { (* canon stores every value under its own key *)
+        pose proof (in_find N.compare (ol_eq _ N_order) (ol_antisym _ N_order) (ol_trans _ N_order) _ _ _ Hs F) as F1.
+        assert (Hkk : mat_digest m = mat_digest (fst (m', b))).
+        { eapply (canon_keyed N.compare payload_cmp (fun p => mat_digest (fst p)) N_order pays [] ps Hc); [|exact F1].
+          intros k v Hk. discriminate. }
+        cbn in Hkk. congruence. }
+      exists m', b. repeat split; auto. rewrite <- Hd. eapply sc_hashes_none; eauto.
+  Qed.
+
+  Lemma sc_withheld_is_obstruction mats pays m : In m mats -> mat_present m = true ->
+    (forall m' b, In (m', b) pays -> mat_digest m' <> mat_digest m) -> sc_check H mats pays <> SCOk.
+  Proof.
+    intros Hin Hp Hno Hok. destruct (sc_ok_intact _ _ Hok) as [_ P2].
+    destruct (P2 m Hin Hp) as (m' & b & Hi & Hd & _). exact (Hno m' b Hi Hd).
+  Qed.
+
+  Lemma sc_corrupt_is_obstruction mats pays m c orig : In (m, c) pays -> H orig = mat_digest m -> c <> orig ->
+    sc_check H mats pays <> SCOk \/ Collision.
+  Proof.
+    intros Hin Ho Hne. destruct (sc_check H mats pays) eqn:Hk; try (left; discriminate).
+    right. destruct (sc_ok_intact _ _ Hk) as [P1 _]. destruct (P1 m c Hin) as [Hh _].
+    exists c, orig. split; auto. congruence.
+  Qed.
+  (* ---- round trips (record level): intact, complete material is accepted ---- *)
+  Lemma cas_blob_intact_ok cas r b : find N.compare (cref_hash r) cas = Some b -> H b = cref_hash r ->
+    lenN b = cref_len r -> cas_blob H cas r = CASOk.
+  Proof. intros Hf Hh Hl. unfold cas_blob. rewrite Hf, Hh, Hl, !N.eqb_refl. reflexivity. Qed.
+
+  Lemma cas_roundtrip mats segrefs retrefs cas rs :
+    canon key_cmp cref_cmp cref_key retrefs = Some rs ->
+    tdiff (tset (map mat_triple (filter mat_present mats))) (tset (map cref_triple (map snd rs))) = 0 ->
+    tdiff (tset (map cref_triple (map snd rs))) (tset (map mat_triple (filter mat_present mats))) = 0 ->
+    (forall r, In r (segrefs ++ retrefs) ->
+       exists b, find N.compare (cref_hash r) cas = Some b /\ H b = cref_hash r /\ lenN b = cref_len r) ->
+    cas_check H mats segrefs retrefs cas = CASOk.
+  Proof.
+    intros Hc H1 H2 Hall. unfold cas_check. rewrite Hc, H1, H2. cbn.
+    assert (Hs : sorted key_cmp rs).
+    { eapply canon_sorted_gen; try exact key_order; try exact Hc; exact I. }
+    rewrite cas_blobs_all_ok.
+    - apply cas_blobs_all_ok. intros r Hin. apply in_map_iff in Hin as ([k r'] & E & Hin). cbn in E. subst r'.
+      pose proof (canon_from key_cmp cref_cmp cref_key key_order cref_order retrefs rs k r Hc Hin Hs) as Hr.
+      destruct (Hall r (in_or_app _ _ _ (or_intror Hr))) as (b & Hf & Hh & Hl). eapply cas_blob_intact_ok; eauto.
+    - intros r Hin. destruct (Hall r (in_or_app _ _ _ (or_introl Hin))) as (b & Hf & Hh & Hl).
+      eapply cas_blob_intact_ok; eauto.
+  Qed.
+
+  Lemma sc_hashes_all ps : (forall d m b, In (d, (m, b)) ps -> H b = mat_digest m) -> sc_hashes H ps = None.
+  Proof.
+    induction ps as [|[d [m b]] ps IH]; intros Ha; [reflexivity|]. cbn.
+    rewrite (Ha d m b (or_introl eq_refl)), N.eqb_refl. apply IH. intros; eapply Ha; right; eauto.
+  Qed.
+
+  Lemma sc_missing_all mats ps :
+    (forall m, In m mats -> mat_present m = true -> mem N.compare (mat_digest m) ps = true) ->
+    sc_missing mats ps = None.
+  Proof.
+    induction mats as [|m mats IH]; intros Ha; [reflexivity|]. cbn.
+    destruct (mat_present m) eqn:Hp; cbn.
+    - rewrite (Ha m (or_introl eq_refl) Hp). cbn. apply IH. intros; apply Ha; auto. right; auto.
+    - apply IH. intros; apply Ha; auto. right; auto.
+  Qed.
+
+  Lemma sc_extra_all mats ps :
+    (forall d p, In (d, p) ps -> exists m, In m mats /\ mat_digest m = d) -> sc_extra mats ps = None.
+  Proof.
+    induction ps as [|[d p] ps IH]; intros Ha; [reflexivity|]. cbn.
+    destruct (Ha d p (or_introl eq_refl)) as (m & Hm & Hd).
+    assert (E : existsb (fun m0 => N.eqb (mat_digest m0) d) mats = true).
+    { apply existsb_exists. exists m. split; auto. apply N.eqb_eq; exact Hd. }
+    rewrite E. apply IH. intros; eapply Ha; right; eauto.
+  Qed.
+
+  Lemma sc_roundtrip mats pays ps :
+    canon N.compare payload_cmp (fun p => mat_digest (fst p)) pays = Some ps ->
+    (forall m b, In (m, b) pays -> H b = mat_digest m /\ exists m', In m' mats /\ mat_digest m' = mat_digest m) ->
+    (forall m, In m mats -> mat_present m = true -> exists m' b, In (m', b) pays /\ mat_digest m' = mat_digest m) ->
+    sc_check H mats pays = SCOk.
+  Proof.
+    intros Hc Hp Hm. unfold sc_check. rewrite Hc.
+    assert (Hs : sorted N.compare ps).
+    { eapply canon_sorted_gen; try exact N_order; try exact Hc; exact I. }
+    assert (Hfrom : forall d m b, In (d, (m, b)) ps -> In (m, b) pays /\ d = mat_digest m).
+    { intros d m b Hin. split.
+      - eapply (canon_from N.compare payload_cmp _ N_order payload_order); eauto.
+      - pose proof (in_find N.compare (ol_eq _ N_order) (ol_antisym _ N_order) (ol_trans _ N_order) _ _ _ Hs Hin) as F1.
+        apply (canon_keyed N.compare payload_cmp (fun p => mat_digest (fst p)) N_order pays [] ps Hc) in F1; auto.
+        intros k v Hk; discriminate. }
+    rewrite sc_hashes_all.
+    - rewrite sc_missing_all.
+      + rewrite sc_extra_all; [reflexivity|].
+        intros d [m b] Hin. destruct (Hfrom d m b Hin) as [Hi ->]. destruct (Hp m b Hi) as [_ Hx]. exact Hx.
+      + intros m Hin Hpres. destruct (Hm m Hin Hpres) as (m' & b & Hi & Hd).
+        pose proof (canon_contains N.compare payload_cmp _ N_order payload_order pays ps (m', b) Hc Hi) as Hps. cbn in Hps.
+        unfold mem. rewrite <- Hd.
+        rewrite (in_find N.compare (ol_eq _ N_order) (ol_antisym _ N_order) (ol_trans _ N_order) _ _ _ Hs Hps). reflexivity.
+    - intros d m b Hin. destruct (Hfrom d m b Hin) as [Hi _]. destruct (Hp m b Hi) as [Hh _]. exact Hh.
+  Qed.
+End ExportProofs.
